@@ -1,6 +1,7 @@
 import Driver.Util
 import Rivia.Model.Path
 import Rivia.Spec.GoClean
+import Rivia.Spec.PathLaws
 
 namespace Driver
 open Rivia
@@ -8,6 +9,13 @@ open Rivia
 def line3 (m s c : String) : String := m ++ "\t" ++ s ++ "\t" ++ c
 
 def okStr (s : Str) : String := "ok " ++ showStr s
+def okComps (cs : List Comp) : String := "ok " ++ showList (cs.map Comp.str)
+def hasMultiByte (s : Str) : Bool := s.any (fun c => c.utf8Size ≠ 1)
+/-- class of the known `trim_ext` defect: an extension exists but the string does not end with it -/
+def trimExtClass (s : Str) : String :=
+  match extension s, fileName s with
+  | some _, some n => if n.isSuffixOf s then "-" else "trim_ext_trailing_sep"
+  | _, _ => "-"
 def okBool (b : Bool) : String := "ok " ++ showBool b
 
 /-- One request → "model \t spec \t class".  `-` = no functional spec / in-domain. -/
@@ -16,25 +24,44 @@ def pathFn (fn : String) (args : List String) : Option String :=
   | "clean", [a] => do
     let s ← strOfArg a
     pure (line3 (showOptStr (cleanO s)) (okStr (Spec.goClean s)) "-")
-  | "base", [a] => do let s ← strOfArg a; pure (line3 (showOutcome showStr (base s)) "-" "-")
+  | "base", [a] => do let s ← strOfArg a; pure (line3 (showOutcome showStr (base s)) (showOutcome showStr (Outcome.ofOption .iterItemNotFound ((components s).getLast?.map Comp.str))) "-")
   | "last", [a] => do let s ← strOfArg a; pure (line3 (showOutcome showStr (last s)) "-" "-")
-  | "first", [a] => do let s ← strOfArg a; pure (line3 (showOutcome showStr (first s)) "-" "-")
-  | "name", [a] => do let s ← strOfArg a; pure (line3 (showOutcome showStr (name s)) "-" "-")
+  | "first", [a] => do let s ← strOfArg a; pure (line3 (showOutcome showStr (first s)) (showOutcome showStr (Outcome.ofOption .iterItemNotFound ((components s).head?.map Comp.str))) "-")
+  | "name", [a] => do
+    let s ← strOfArg a
+    let cls := if trimExtClass s ≠ "-" then trimExtClass s
+      else if Spec.nameSpec s = .ok ['.'] ∧ (components s).length ≥ 2 then "name_stem_is_dot" else "-"
+    pure (line3 (showOutcome showStr (name s)) (showOutcome showStr (Spec.nameSpec s)) cls)
+  | "law_trim_ext", [a] => do
+    let s ← strOfArg a
+    let m := match ext s, trimExt s with
+      | .ok e, .ok t => okBool (Spec.trimExtLaw s t e)
+      | .ok _, .panic => "panic"
+      | _, _ => okBool true
+    pure (line3 m (okBool true) (trimExtClass s))
+  | "dir_c", [a] => do
+    let s ← strOfArg a
+    pure (line3 (showOutcome (fun x => showList ((components x).map Comp.str)) (dir s))
+      (match components s with
+        | [] => "err ParentNotFound"
+        | cs => if cs.getLast? = some .root then "err ParentNotFound" else okComps cs.dropLast) "-")
+  | "trim_first_c", [a] => do let s ← strOfArg a; pure (line3 (okComps (components (trimFirst s))) (okComps (components s).tail) "-")
+  | "trim_last_c", [a] => do let s ← strOfArg a; pure (line3 (okComps (components (trimLast s))) (okComps (components s).dropLast) "-")
   | "ext", [a] => do let s ← strOfArg a; pure (line3 (showOutcome showStr (ext s)) "-" "-")
   | "dir", [a] => do let s ← strOfArg a; pure (line3 (showOutcome showStr (dir s)) "-" "-")
   | "trim_ext", [a] => do let s ← strOfArg a; pure (line3 (showOutcome showStr (trimExt s)) "-" "-")
   | "trim_first", [a] => do let s ← strOfArg a; pure (line3 (okStr (trimFirst s)) "-" "-")
   | "trim_last", [a] => do let s ← strOfArg a; pure (line3 (okStr (trimLast s)) "-" "-")
-  | "trim_protocol", [a] => do let s ← strOfArg a; pure (line3 (okStr (trimProtocol s)) "-" "-")
-  | "is_empty", [a] => do let s ← strOfArg a; pure (line3 (okBool (isEmpty s)) "-" "-")
-  | "parse_paths", [a] => do let s ← strOfArg a; pure (line3 ("ok " ++ showList (parsePaths s)) "-" "-")
-  | "concat", [a, b] => do let s ← strOfArg a; let t ← strOfArg b; pure (line3 (okStr (concat s t)) "-" "-")
-  | "mash", [a, b] => do let s ← strOfArg a; let t ← strOfArg b; pure (line3 (okStr (mash s t)) "-" "-")
-  | "has", [a, b] => do let s ← strOfArg a; let t ← strOfArg b; pure (line3 (okBool (has s t)) "-" "-")
-  | "has_prefix", [a, b] => do let s ← strOfArg a; let t ← strOfArg b; pure (line3 (okBool (hasPrefix s t)) "-" "-")
-  | "has_suffix", [a, b] => do let s ← strOfArg a; let t ← strOfArg b; pure (line3 (okBool (hasSuffix s t)) "-" "-")
-  | "trim_prefix", [a, b] => do let s ← strOfArg a; let t ← strOfArg b; pure (line3 (showOptStr (trimPrefix s t)) "-" "-")
-  | "trim_suffix", [a, b] => do let s ← strOfArg a; let t ← strOfArg b; pure (line3 (showOptStr (trimSuffix s t)) "-" "-")
+  | "trim_protocol", [a] => do let s ← strOfArg a; pure (line3 (okStr (trimProtocol s)) (okStr (Spec.trimProtocolSpec s)) "-")
+  | "is_empty", [a] => do let s ← strOfArg a; pure (line3 (okBool (isEmpty s)) (okBool (decide (s = []))) "-")
+  | "parse_paths", [a] => do let s ← strOfArg a; pure (line3 ("ok " ++ showList (parsePaths s)) ("ok " ++ showList (Spec.parsePathsSpec s)) "-")
+  | "concat", [a, b] => do let s ← strOfArg a; let t ← strOfArg b; pure (line3 (okStr (concat s t)) (okStr (s ++ t)) "-")
+  | "mash", [a, b] => do let s ← strOfArg a; let t ← strOfArg b; pure (line3 (okStr (mash s t)) (okStr (Spec.mashSpec s t)) "-")
+  | "has", [a, b] => do let s ← strOfArg a; let t ← strOfArg b; pure (line3 (okBool (has s t)) (okBool (Str.contains s t)) "-")
+  | "has_prefix", [a, b] => do let s ← strOfArg a; let t ← strOfArg b; pure (line3 (okBool (hasPrefix s t)) (okBool (t.isPrefixOf s)) "-")
+  | "has_suffix", [a, b] => do let s ← strOfArg a; let t ← strOfArg b; pure (line3 (okBool (hasSuffix s t)) (okBool (t.isSuffixOf s)) "-")
+  | "trim_prefix", [a, b] => do let s ← strOfArg a; let t ← strOfArg b; pure (line3 (showOptStr (trimPrefixO s t)) (okStr (Spec.trimPrefixSpec s t)) "-")
+  | "trim_suffix", [a, b] => do let s ← strOfArg a; let t ← strOfArg b; pure (line3 (showOptStr (trimSuffixO s t)) (okStr (Spec.trimSuffixSpec s t)) "-")
   | "relative", [a, b] => do let s ← strOfArg a; let t ← strOfArg b; pure (line3 (okStr (relative s t)) "-" "-")
   | "expand", [a, e] => do
     let s ← strOfArg a; let env ← envOfArg e
